@@ -74,6 +74,9 @@ Proof. vm_compute. reflexivity. Qed.
 (* ---- structural facts re-extracted from the Rust source on every run (tools/extract_src.py, Generated/Facts.v):
    the orderings inside the code that the models used above assume. A change of the code that invalidates one turns
    the generated boolean into `false` and this file no longer compiles. ---- *)
+(* a writer cannot append to a blob between its last sync and its move to the closed blobs *)
+Theorem C12_source_close_syncs_under_exclusive_lock : Pearl.Generated.Facts.CLOSE_SYNCS_UNDER_EXCLUSIVE_LOCK = true.
+Proof. reflexivity. Qed.
 (* bytes appended while a sync is in flight are not counted as synced *)
 Theorem C12_source_synced_size_before_sync : Pearl.Generated.Facts.SYNCED_SIZE_CAPTURED_BEFORE_SYNC = true.
 Proof. reflexivity. Qed.
@@ -91,3 +94,4 @@ Print Assumptions C12_source_synced_size_before_sync.
 Print Assumptions C12_source_fsync_flag_is_a_guard.
 Print Assumptions C12_trace_after_crash_accepted.
 Print Assumptions C12_cut_trace_not_accepted.
+Print Assumptions C12_source_close_syncs_under_exclusive_lock.
